@@ -137,6 +137,8 @@ func fileTreeRecursive(
 
 	// depth > 1
 
+	// only the top-level call is seeded with the root of the previous iteration
+	seeded := len(children) > 0
 	if children == nil {
 		children = make(fileShards, 0)
 	}
@@ -157,8 +159,10 @@ func fileTreeRecursive(
 	if len(children) == 0 {
 		// empty case
 		return fileShardMeta{}, nil
-	} else if len(children) == 1 {
-		// degenerate case
+	} else if len(children) == 1 && seeded {
+		// degenerate case: nothing was added to the previous root. A lone
+		// child of an unseeded call is still wrapped in a parent node so that
+		// all leaves stay at the same depth, as the balanced importer does.
 		return children[0], nil
 	}
 
